@@ -17,6 +17,7 @@ def check(ctx):
     ctx.guard(c14.r145_formulas, ctx, rule="R11.1")
     ctx.guard(c01.r011_frame, ctx, "R11.2")
     ctx.guard(c01.r012_slicing, ctx, "R11.2")
+    ctx.guard(c01.r015_param_routing, ctx, "R11.2")
     ctx.guard(c03.r031_wiring, ctx, "R11.2", only_weights=True)
     ctx.rule("R11.3", "scalar results for single weighted rows (shared with C14 R14.4)")
     ctx.guard(c14.r144_scalar, ctx, rule="R11.3")
